@@ -5,6 +5,7 @@ import (
 	"go/constant"
 	"go/token"
 	"go/types"
+	"strings"
 
 	"golang.org/x/tools/go/packages"
 
@@ -20,7 +21,11 @@ func init() {
 	})
 }
 
-func runC11(c *fw.Ctx) { r111(c) }
+func runC11(c *fw.Ctx) {
+	r111(c)
+	r112(c)
+	r113(c)
+}
 
 // importVars maps local variables assigned from pkg.TryImport("path") / pkg.Import("path") to the path.
 func importVars(p *packages.Package, fd *ast.FuncDecl) map[types.Object]string {
@@ -358,4 +363,133 @@ func representable(v constant.Value, t types.Type) bool {
 		return v.Kind() == constant.Bool
 	}
 	return false
+}
+
+// R11.2: omitted optional arguments become zero values of the parameter types - and only optional
+// parameters may be omitted. Where matchFuncCall fills the missing tail of the argument list with zero
+// values (a loop over the missing indices assigning pkg.Zero(param type)), every index of that same range
+// must have been tested with isParamOptional: in the fill loop itself or in a loop with the same header.
+// Testing only the first missing parameter lowers `Send("bob")` for func Send(to string, retries? int,
+// body string) to Send("bob", 0, ""), giving a required parameter a value the caller never wrote.
+func r112(c *fw.Ctx) {
+	const rule = "R11.2"
+	fd, p := needDecl(c, rule, "matchFuncCall")
+	if fd == nil {
+		return
+	}
+	info := p.TypesInfo
+	stmtText := func(st ast.Stmt) string {
+		switch x := st.(type) {
+		case nil:
+			return ""
+		case *ast.AssignStmt:
+			var l, r []string
+			for _, e := range x.Lhs {
+				l = append(l, exprString(e))
+			}
+			for _, e := range x.Rhs {
+				r = append(r, exprString(e))
+			}
+			return strings.Join(l, ",") + x.Tok.String() + strings.Join(r, ",")
+		case *ast.IncDecStmt:
+			return exprString(x.X) + x.Tok.String()
+		case *ast.ExprStmt:
+			return exprString(x.X)
+		}
+		return "?"
+	}
+	header := func(fs *ast.ForStmt) string {
+		return stmtText(fs.Init) + "; " + exprString(fs.Cond) + "; " + stmtText(fs.Post)
+	}
+	var fills, tests []*ast.ForStmt
+	ast.Inspect(fd.Body, func(m ast.Node) bool {
+		fs, ok := m.(*ast.ForStmt)
+		if !ok || fs.Cond == nil {
+			return true
+		}
+		isFill, isTest := false, false
+		ast.Inspect(fs.Body, func(k ast.Node) bool {
+			if call, ok := k.(*ast.CallExpr); ok {
+				if isFunc(callee(info, call), fw.Mod, "Package.Zero") {
+					isFill = true
+				}
+				if fn, _ := callee(info, call).(*types.Func); fn != nil && fn.Pkg() == p.Types && fn.Name() == "isParamOptional" {
+					isTest = true
+				}
+			}
+			return true
+		})
+		if isFill {
+			fills = append(fills, fs)
+		}
+		if isTest {
+			tests = append(tests, fs)
+		}
+		return true
+	})
+	if len(fills) == 0 {
+		c.Undecided(rule, "matchFuncCall/zero-fill", fd.Pos(), "no loop that fills omitted arguments with zero values found")
+		return
+	}
+	for i, f := range fills {
+		covered := false
+		for _, t := range tests {
+			if header(t) == header(f) {
+				covered = true
+			}
+		}
+		c.Check(covered, rule, sprintf("matchFuncCall/zero-fill#%d/every-omitted-parameter-tested-optional", i+1), f.Pos(),
+			"the omitted arguments %s are filled with zero values, but no loop over the same indices tests isParamOptional for each of them: a required parameter that follows an optional one receives a zero value", header(f))
+	}
+}
+
+// R11.3: member access on `any` / string-keyed maps in a range header is lowered through a hoisted
+// assertion statement (`_autoGo_1, _ := x.(map[string]any)`) that must be emitted before the for statement.
+// The statements produced while the header was built are collected by RangeAssignThen (clearBlockStmt)
+// and re-emitted in front of the loop by End. They must be collected for every form of the range header
+// (`k, v := range`, `k, v = range`, `range`): on every normal path of RangeAssignThen the pending
+// statements of the block are taken over into the loop object.
+func r113(c *fw.Ctx) {
+	const rule = "R11.3"
+	fd, p := needDecl(c, rule, "(*forRangeStmt).RangeAssignThen")
+	if fd == nil {
+		return
+	}
+	info := p.TypesInfo
+	paths, trunc := enumPaths(info, fd.Body)
+	if trunc {
+		c.Undecided(rule, "RangeAssignThen/paths", fd.Pos(), "too many paths")
+		return
+	}
+	nNormal, nTaken := 0, 0
+	for _, pa := range paths {
+		if pa.Abnormal {
+			continue
+		}
+		nNormal++
+		taken := false
+		for _, nd := range pa.Nodes {
+			as, ok := nd.(*ast.AssignStmt)
+			if !ok || len(as.Lhs) != len(as.Rhs) {
+				continue
+			}
+			for i, l := range as.Lhs {
+				se, ok := unparen(l).(*ast.SelectorExpr)
+				if !ok {
+					continue
+				}
+				if fv, ok := info.Uses[se.Sel].(*types.Var); !ok || !fv.IsField() {
+					continue
+				}
+				if call, ok := unparen(as.Rhs[i]).(*ast.CallExpr); ok && isFunc(callee(info, call), fw.Mod, "CodeBuilder.clearBlockStmt") {
+					taken = true
+				}
+			}
+		}
+		if taken {
+			nTaken++
+		}
+	}
+	c.Check(nNormal > 0 && nTaken == nNormal, rule, "RangeAssignThen/collects-hoisted-statements-on-every-path", fd.Pos(),
+		"%d of %d normal paths take over the statements emitted while the range header was built: on the others a hoisted `_autoGo_N, _ := x.(map[string]any)` stays inside the loop body while the header refers to _autoGo_N (undefined in the emitted code)", nTaken, nNormal)
 }
